@@ -153,6 +153,8 @@ def chunks(it, size):
 
 def explore(pid, tier, seed, use_model, case_iter=None, pool=None):
     prop = registry.get(pid)
+    if hasattr(prop, "custom_run") and case_iter is None:
+        return prop.custom_run(tier, seed)
     rng = random.Random(("%s-%s-%d" % (pid, tier, seed)))
     it = case_iter if case_iter is not None else prop.cases(tier, rng)
     size = getattr(prop, "chunk", 200)
